@@ -36,6 +36,8 @@ var cmdShapes = []struct {
 	{"PING", []string{"tok"}},
 	{"PONG", []string{"srv", "tok"}},
 	{"JOIN", []string{"#new", "acct", "Real Name"}},
+	{"JOIN", []string{"#chan", "*", "Other Name"}},
+	{"005", []string{"me", "EXCEPTS=", "=x", "NETWORK=", "are supported by this server"}},
 	{"PART", []string{"#chan", "bye now"}},
 	{"KICK", []string{"#chan", "alice", "go away"}},
 	{"QUIT", []string{"gone fishing"}},
